@@ -22,6 +22,7 @@ EXTRA = {"C01-C": ["C07"], "C02-C": ["C16", "C10"], "C03-C": ["C16", "C10"], "C0
          "C19-I": ["C01"], "C19-J": ["C01", "C07"], "C04-I": ["C08"], "C04-J": ["C08"], "C06-I": ["C01"], "C06-J": ["C01"],
          "C02-K": ["C09"], "C02-L": ["C10"], "C03-K": ["C02"], "C03-L": ["C02"], "C05-K": ["C08"], "C05-L": ["C12"], "C08-K": ["C02"], "C08-L": ["C10"], "C09-K": ["C02"], "C09-L": ["C03"],
          "C10-K": ["C02", "C03"], "C10-L": ["C08"], "C11-L": ["C10"], "C16-K": ["C17"], "C16-L": ["C04"], "C17-L": ["C16"], "C18-K": ["C16"], "C18-L": ["C02"],
+         "C19-M": ["C01"], "C19-N": ["C01"], "C06-M": ["C01"], "C01-M": ["C07"], "C12-N": ["C02"], "C04-M": ["C10"],
          "C15-E": ["C05"], "C15-F": ["C05"], "C17-F": ["C18"], "C19-E": ["C01"], "C19-F": ["C01"],
          "C02-B": ["C16"], "C05-B": ["C16"], "C07-B": ["C17"], "C13-B": ["C17"], "C03-B": ["C10"], "C10-A": ["C03"], "C16-B": ["C05"], "C08-B": ["C03", "C04"], "C01-B": ["C06"], "C06-B": ["C01"]}
 
@@ -34,12 +35,12 @@ def main():
     titles = {p["id"]: p["title"] for p in props}
     items = []
     for d in sorted(os.listdir(SRC)):
-        m = re.fullmatch(r"(C\d\d)([abcdef])", d)
+        m = re.fullmatch(r"(C\d\d)([abcdefg])", d)
         if not m:
             continue
         for x in "AB":
             # second-round changes (directories CNNb) are filed as C and D, third-round ones (CNNc) as E and F, fourth-round ones (CNNd) as G and H
-            sid = f"{m.group(1)}-{ {'a': {'A': 'A', 'B': 'B'}, 'b': {'A': 'C', 'B': 'D'}, 'c': {'A': 'E', 'B': 'F'}, 'd': {'A': 'G', 'B': 'H'}, 'e': {'A': 'I', 'B': 'J'}, 'f': {'A': 'K', 'B': 'L'}}[m.group(2)][x] }"
+            sid = f"{m.group(1)}-{ {'a': {'A': 'A', 'B': 'B'}, 'b': {'A': 'C', 'B': 'D'}, 'c': {'A': 'E', 'B': 'F'}, 'd': {'A': 'G', 'B': 'H'}, 'e': {'A': 'I', 'B': 'J'}, 'f': {'A': 'K', 'B': 'L'}, 'g': {'A': 'M', 'B': 'N'}}[m.group(2)][x] }"
             if todo and sid not in todo:
                 continue
             patch = f"{SRC}/{d}/patch{x}.ported.diff"
